@@ -180,6 +180,9 @@ def run_check(prop, tier, seed, jobs=None):
     for i, s in enumerate(insts):
         s.setdefault("name", "%s-%04d" % (prop, i))
         s.setdefault("kind", "main")
+    only = [x for x in os.environ.get("VERIF_ONLY", "").split(",") if x]     # developer aid: restrict to named instantiations
+    if only:
+        insts = [s for s in insts if s["name"] in only or s["kind"] == "mutant"]
     jobs = jobs or int(os.environ.get("VERIF_JOBS", "0")) or min(16, os.cpu_count() or 4)
     args = [(modname, s, open_keys) for s in insts]
     ctxm = mp.get_context("fork")
@@ -351,7 +354,8 @@ def run_check(prop, tier, seed, jobs=None):
     if len(info_notes) > 3:
         lines.append("  (+%d further notes, see evidence)" % (len(info_notes) - 3))
     for n, w in harness_errors[:4]:
-        lines.append("HARNESS-ERROR %s: %s" % (n, w.strip()[-900:]))
+        w = w.strip()
+        lines.append("HARNESS-ERROR %s: %s" % (n, w if len(w) <= 1800 else w[:900] + " [...] " + w[-900:]))
     if len(harness_errors) > 4:
         lines.append("  (+%d further harness errors)" % (len(harness_errors) - 4))
     for n, w in inconclusive[:10]:
